@@ -235,6 +235,10 @@ func concBody(x *Exec, raw json.RawMessage) {
 		}
 	}
 
+	if has(p.Oracles, "expired") || has(p.Oracles, "seq-equiv") {
+		seqEquiv(x, p, recs)
+	}
+
 	if has(p.Oracles, "ledger") && !p.Cfg.NoHandlers {
 		checkLedger(x, r, p, append(append([]opRec{}, setupRecs...), flat(recs)...), contents)
 	}
@@ -526,4 +530,52 @@ func checkLedger(x *Exec, r *Rig, p concParams, ops []opRec, contents map[int]in
 			x.Fail("event-order", "OnAtomicDeletion"+lbl, "key %d: value %d was installed after %d but its removal was reported first", installed[b], b, a)
 		}
 	}
+}
+
+// seqEquiv: in coarse mode every operation is atomic, so the concurrent run is one sequential
+// history (ordered by call stamps). Replaying that history on a fresh cache through the E1 runner
+// must (a) satisfy the reference model and (b) give the same results as the concurrent run.
+func seqEquiv(x *Exec, p concParams, recs [][]opRec) {
+	all := flat(recs)
+	sort.Slice(all, func(i, j int) bool { return all[i].call < all[j].call })
+	for i := 1; i < len(all); i++ {
+		if all[i].call < all[i-1].ret {
+			return // operations overlapped (fine-grained run): not a sequential history
+		}
+	}
+	s := newSeqRunner(p.Cfg)
+	defer s.close()
+	for _, op := range p.Setup {
+		s.apply(op)
+	}
+	s.disc = nil
+	// value translation: concurrent id -> replay id
+	tr := map[int]int{}
+	idxOf := map[int]int{}
+	for i, rc := range all {
+		ci := (rc.th+2)*1000 + idxOf[rc.th]*10
+		idxOf[rc.th]++
+		ri := (-1+2)*1000 + (len(p.Setup)+i)*10
+		for d := 0; d < 10; d++ {
+			tr[ci+d] = ri + d
+		}
+	}
+	conv := func(v int) int {
+		if nid, ok := tr[valID(v)]; ok {
+			return mkVal(nid, v&15)
+		}
+		return v
+	}
+	for i, rc := range all {
+		s.step = i
+		rr := s.apply(rc.op)
+		got := rc.res
+		if conv(got.Val) != rr.Val || got.OK != rr.OK || got.Err != rr.Err || (got.Panic != "") != (rr.Panic != "") {
+			x.Fail("seq-divergence", opName(rc.op)+"@"+p.Label, "op %q returned (%d,%v,%q) in the concurrent run but (%d,%v,%q) when the same history is replayed sequentially", rc.op, conv(got.Val), got.OK, got.Err, rr.Val, rr.OK, rr.Err)
+		}
+	}
+	for _, d := range s.disc {
+		x.Fail(d.Kind, d.Subject, "sequential replay of the observed history: %s", d.Detail)
+	}
+	x.Count("seq-equiv-checked")
 }
